@@ -275,7 +275,7 @@ package gnet
 //@ pure aat(c *conn, i int) := i < spos[c.fd] ? sdata[c.fd][i] : oat(c, i - spos[c.fd])
 // OI: outbound invariant — the buffer is well-formed. armedok: in level-triggered mode write interest is armed while flushed
 // data is pending (otherwise nothing would ever send it).
-//@ pred OI(c *conn) := elastic.bwf(c.outboundBuffer) && spos[c.fd] >= 0
+//@ pred OI(c *conn) := elastic.bwf(c.outboundBuffer) && spos[c.fd] >= 0 && ocnt(c) >= 0
 //@ pred armedok(c *conn) := !isET(c.loop) && ocnt(c) > 0 && !c.unflushed ==> armed[c.fd]
 // addrok: the address interfaces never hold typed nil pointers; ringsep: the two rings are different objects.
 //@ pred addrok(c *conn) := (typeis(c.localAddr, "*net.TCPAddr") || typeis(c.localAddr, "*net.UDPAddr") ==> ref(c.localAddr) != nil) &&
@@ -357,7 +357,7 @@ package gnet
 //@   modifies-all-except eventloop, engine, Options, netpoll.Poller, listener, asyncWriteHook, asyncWritevHook, map[int]*listener, ghost:kdata, ghost:kpos, ghost:nopen, ghost:nacb if c.opened && reg(el.connections, c.fd) != nil
 //@   ensures c.loop == el && c.fd == old(c.fd) && elwf(el)
 //@   ensures !old(c.opened && reg(el.connections, c.fd) != nil) ==> err == nil
-//@   ensures c.opened ==> CI(c) || !old(c.opened && reg(el.connections, c.fd) != nil)
+//@   ensures c.opened && old(c.opened && reg(el.connections, c.fd) != nil) ==> CI(c)
 
 // write: one writable event. The kernel is handed the front of the outbound buffer and exactly what it accepted is
 // dropped from the buffer (so the peer's stream stays the accepted prefix, in order); EAGAIN changes nothing; any other
